@@ -438,10 +438,13 @@ func (r *Reader) metaSeq(moltype, id []byte) (seq.Sequence, error) {
 	for {
 		line, err = r.r.ReadBytes('\n')
 		if err != nil {
-			if err == io.EOF {
+			if err == io.EOF && len(line) > 0 {
+				err = nil // The last line of the input may lack a terminator.
+			} else if err == io.EOF {
 				return nil, err
+			} else {
+				return nil, &csv.ParseError{Line: r.line, Err: err}
 			}
-			return nil, &csv.ParseError{Line: r.line, Err: err}
 		}
 		r.line++
 		line = bytes.TrimSpace(line)
@@ -485,10 +488,13 @@ func (r *Reader) Read() (f feat.Feature, err error) {
 	for {
 		line, err = r.r.ReadBytes('\n')
 		if err != nil {
-			if err == io.EOF {
+			if err == io.EOF && len(line) > 0 {
+				err = nil // The last line of the input may lack a terminator.
+			} else if err == io.EOF {
 				return f, err
+			} else {
+				return nil, &csv.ParseError{Line: r.line, Err: err}
 			}
-			return nil, &csv.ParseError{Line: r.line, Err: err}
 		}
 		r.line++
 		line = bytes.TrimSpace(line)
